@@ -17,6 +17,9 @@ size_t gh_wi; struct sit *gh_word;                   /* ghost ELEMENT of the sit
 #ifndef NCAP
 #define NCAP 3
 #endif
+#ifndef DMAX
+#define DMAX 64
+#endif
 #define HDR (sizeof (struct _os_segment))
 #define PAY (offsetof (struct _os_segment, os_segment_contest))
 #define OFF(p) __CPROVER_POINTER_OFFSET (p)
@@ -165,3 +168,21 @@ void h_add_nonstart (void)
   set_add_new_nonstart_sit (s, par);
   if (new_core->n_sits == n) VACUITY_CANARY_N ("pair already there"); else VACUITY_CANARY_N ("pair appended");
 }
+
+/* E.set.dists_hash: setup_set_dists_hash - the hash over the distance vector of a set: reads exactly the n_start_sits distances, nothing else;
+   a set without start situations has no vector (NULL) and no pointer arithmetic is done on it (F29); only the hash field is written */
+void dists_hash_c (hash_table_entry_t s)
+__CPROVER_requires (__CPROVER_is_fresh (s, sizeof (struct set)) && __CPROVER_is_fresh (((struct set *) s)->core, sizeof (struct set_core)))
+__CPROVER_requires (((struct set *) s)->core->n_start_sits >= 0 && (size_t) ((struct set *) s)->core->n_start_sits == gh_dn && gh_dn <= DMAX)
+__CPROVER_requires (gh_dn == 0 ? ((struct set *) s)->dists == NULL : __CPROVER_is_fresh (((struct set *) s)->dists, gh_dn * sizeof (int)))
+__CPROVER_assigns (((struct set *) s)->dists_hash)
+__CPROVER_ensures (gh_dn != 0 || ((struct set *) s)->dists_hash == jauquet_prime_mod32)
+__CPROVER_ensures (gh_dn != 1 || ((struct set *) s)->dists_hash == jauquet_prime_mod32 * hash_shift + (unsigned) ((struct set *) s)->dists[0])
+;
+void h_dists_hash (void) { hash_table_entry_t s; HAVOC (gh_dn); setup_set_dists_hash (s); if (gh_dn == 0) VACUITY_CANARY_N ("no distances"); else VACUITY_CANARY_N ("some distances"); }
+/* E.set.new_start: set_new_start resets exactly the six variables that describe the set being formed */
+void new_start_c (void)
+__CPROVER_assigns (new_set, new_core, new_set_ready_p, new_n_start_sits, new_sits, new_dists)
+__CPROVER_ensures (new_set == NULL && new_core == NULL && new_set_ready_p == 0 && new_n_start_sits == 0 && new_sits == NULL && new_dists == NULL)
+;
+void h_new_start (void) { HAVOC (new_set); HAVOC (new_core); HAVOC (new_set_ready_p); HAVOC (new_n_start_sits); HAVOC (new_sits); HAVOC (new_dists); set_new_start (); VACUITY_CANARY (); }
